@@ -99,7 +99,7 @@ var optRe = regexp.MustCompile(`zz_verif_opt_[a-z0-9_]+\.go`)
 func build(id string, r run, work string) (bin string, skipped []string) {
 	skip := map[string]bool{}
 	bin = filepath.Join(work, r.Name+".bin")
-	for attempt := 0; attempt < 12; attempt++ {
+	for attempt := 0; attempt < 40; attempt++ {
 		ov := hookOverlay(skip)
 		if r.Instrument != "" {
 			dir := filepath.Join(work, "instr-"+r.Name)
